@@ -18,9 +18,11 @@ def configDir : String := "hidi-config"
 def factoryDir : String := "hidi-config/factory"
 def blacklistPath : String := "hidi-config/device blacklist.txt"
 
-/-- parent directory of a slash-separated relative path ("" for a single component) -/
+/-- parent directory of a slash-separated relative path ("" for a single component): everything before the last `/`
+    (structural on the character list, so that the kernel can evaluate it on the template's paths) -/
 def parentOf (p : String) : String :=
-  "/".intercalate ((p.splitOn "/").dropLast)
+  let r := p.toList.reverse
+  if r.contains '/' then String.ofList ((r.dropWhile (· ≠ '/')).drop 1).reverse else ""
 
 def isDirIn (fs : FS) (p : String) : Bool := p = "" ∨ alookup p fs = some .dir
 
@@ -37,7 +39,7 @@ def writeFile (fs : FS) (p : String) (data : String) : Option FS :=
   | _ => some (ainsert p (.file data) fs)
 
 /-- is `p` inside (or equal to) directory `d` -/
-def under (d p : String) : Bool := p = d ∨ p.startsWith (d ++ "/")
+def under (d p : String) : Bool := p.toList = d.toList || (d.toList ++ ['/']).isPrefixOf p.toList
 
 /-- fresh tree: `fs.WalkDir(template, "hidi-config", …)` creating everything; stops at the first error -/
 def createAll : List (String × Node) → FS → FS × Bool
